@@ -1,0 +1,19 @@
+//go:build !verif
+
+package dicescript
+
+import "golang.org/x/exp/rand"
+
+// Verification hooks (see verif_on.go). With the `verif` build tag off they are
+// empty and get inlined away.
+
+func verifStep(ctx *Context, opIndex int, code *ByteCode, blockIndex, fstrBlockIndex, diceStateIndex, ndet int) {
+}
+
+func verifRoll(src *rand.PCGSource, dicePoints IntType, mod *int) (IntType, bool) {
+	return 0, false
+}
+
+func verifEmit(e *ParserData, T CodeType, value any) {}
+
+func verifGate(name string, ctx *Context) {}
